@@ -3,6 +3,7 @@ import Flowjaxv.Proofs.FamiliesMvn
 import Flowjaxv.Proofs.FamiliesLaw
 import Flowjaxv.Proofs.FamiliesEF
 import Flowjaxv.Proofs.FamiliesMix
+import Flowjaxv.Proofs.FamiliesGen
 /-!
 # C05 — the provided parametric families compute their textbook log-densities
 
@@ -666,5 +667,320 @@ theorem mixture_sample_law_instance :
     rcases hd with rfl | rfl
     · exact normal_sample_law_density 0 1 one_pos
     · exact normal_sample_law_density 3 2 two_pos
+
+/-! ### The REGENERATED constructors and accessors (`Gen/FamiliesGen.lean`: every `__init__` / accessor property of the families,
+`Affine`, `Scale`, `Loc`, `_StandardStudentT`, translated statement by statement by `py2meth.py`)
+
+`gen_…_eq_model`: for every parameter array and every broadcastable pair / triple of shapes, the object the generated constructor
+returns — read through the generated `unwrap` and the generated elementwise kernels (`Model/FamiliesGenSem.lean`) — is the hand
+wiring of `Model/Families.lean` lifted over the broadcast parameters, so every theorem above is about the generated constructor.
+`gen_…_log_prob`: the textbook log-density on the generated constructor + generated `_log_prob` (scalar parameters; `…_dims`: any
+shape).  `gen_…_accessor`: the generated accessor on the generated constructor's object returns the (broadcast) argument. -/
+section FamiliesGen
+open Fw FamGenPf Vec
+
+theorem gen_normal_eq_model (loc scale : NArr ℝ) {s : List ℕ} (h : bcast2 loc.shape scale.shape = some s) :
+    (GenFam.Normal.init loc scale).map locScaleDist
+      = some (lifted (List.zipWith normalComp (broadcastTo loc s).data (broadcastTo scale s).data)) :=
+  FamGenPf.gen_normal_eq_model loc scale h
+
+theorem gen_gumbel_eq_model (loc scale : NArr ℝ) {s : List ℕ} (h : bcast2 loc.shape scale.shape = some s) :
+    (GenFam.Gumbel.init loc scale).map locScaleDist
+      = some (lifted (List.zipWith gumbelComp (broadcastTo loc s).data (broadcastTo scale s).data)) :=
+  FamGenPf.gen_gumbel_eq_model loc scale h
+
+theorem gen_cauchy_eq_model (loc scale : NArr ℝ) {s : List ℕ} (h : bcast2 loc.shape scale.shape = some s) :
+    (GenFam.Cauchy.init loc scale).map locScaleDist
+      = some (lifted (List.zipWith cauchyComp (broadcastTo loc s).data (broadcastTo scale s).data)) :=
+  FamGenPf.gen_cauchy_eq_model loc scale h
+
+theorem gen_laplace_eq_model (loc scale : NArr ℝ) {s : List ℕ} (h : bcast2 loc.shape scale.shape = some s) :
+    (GenFam.Laplace.init loc scale).map locScaleDist
+      = some (lifted (List.zipWith laplaceComp (broadcastTo loc s).data (broadcastTo scale s).data)) :=
+  FamGenPf.gen_laplace_eq_model loc scale h
+
+theorem gen_logistic_eq_model (loc scale : NArr ℝ) {s : List ℕ} (h : bcast2 loc.shape scale.shape = some s) :
+    (GenFam.Logistic.init loc scale).map locScaleDist
+      = some (lifted (List.zipWith logisticComp (broadcastTo loc s).data (broadcastTo scale s).data)) :=
+  FamGenPf.gen_logistic_eq_model loc scale h
+
+/-- `Chain([Affine(loc, scale), Exp(shape)])` over `StandardNormal(shape)`: the array-level chain is the per-entry chain -/
+theorem gen_lognormal_eq_model (loc scale : NArr ℝ) {s : List ℕ} (h : bcast2 loc.shape scale.shape = some s) :
+    (GenFam.LogNormal.init loc scale).map logNormalDist
+      = some (lifted (List.zipWith logNormalComp (broadcastTo loc s).data (broadcastTo scale s).data)) :=
+  FamGenPf.gen_lognormal_eq_model loc scale h
+
+/-- `Affine(loc=minval, scale=maxval - minval)` over `_StandardUniform(shape)`, when no entry has `maxval ≤ minval` -/
+theorem gen_uniform_eq_model (minval maxval : NArr ℝ) {s : List ℕ} (h : bcast2 minval.shape maxval.shape = some s)
+    (hv : ∀ p ∈ List.zip (broadcastTo maxval s).data (broadcastTo minval s).data, ¬ p.1 ≤ p.2) :
+    (GenFam.Uniform.init minval maxval).map locScaleDist
+      = some (lifted (List.zipWith uniformComp (broadcastTo minval s).data (broadcastTo maxval s).data)) :=
+  FamGenPf.gen_uniform_eq_model minval maxval h hv
+
+/-- `Scale(1 / rate)` over `_StandardExponential(jnp.shape(rate))` -/
+theorem gen_exponential_eq_model (rate : NArr ℝ) (hw : rate.WF) :
+    exponentialDist (GenFam.Exponential.init rate) = lifted (rate.data.map exponentialComp) :=
+  FamGenPf.gen_exponential_eq_model rate hw
+
+/-- `broadcast_arrays(df, loc, scale)`, `_StandardStudentT(df)` (SoftPlus-reparameterised `df`), `Affine(loc, scale)` -/
+theorem gen_studentT_eq_model (df loc scale : NArr ℝ) {s : List ℕ}
+    (h : Vec.broadcastShapes [df.shape, loc.shape, scale.shape] = some s) (hpos : ∀ d ∈ (broadcastTo df s).data, 0 < d) :
+    (GenFam.StudentT.init df loc scale).map studentTDist
+      = some (lifted (List.zipWith3 studentTComp (broadcastTo df s).data (broadcastTo loc s).data (broadcastTo scale s).data)) :=
+  FamGenPf.gen_studentT_eq_model df loc scale h hpos
+
+/-- `TriangularAffine(loc, cholesky(covariance))` then `StandardNormal(bijection.shape)`: the hand model `Families.mvn` (so
+`mvn_log_prob`, `mvn_log_prob_textbook`, `mvn_sample_law` are about the generated constructor) -/
+theorem gen_mvn_eq_model (cholesky : List (List ℝ) → List (List ℝ)) (loc : List ℝ) (cov : List (List ℝ)) {n : ℕ}
+    (h : MvnPf.CholFactor n (cholesky cov)) (hl : loc.length = n) :
+    (GenFam.MultivariateNormal.init cholesky loc cov).map mvnDist = Families.mvn loc (cholesky cov) :=
+  FamGenPf.gen_mvn_eq_model cholesky loc cov h hl
+
+/-- the constructors raise exactly when the shapes do not broadcast (here `Normal`; every family starts with the same call) -/
+theorem gen_normal_rejects_iff (loc scale : NArr ℝ) :
+    GenFam.Normal.init loc scale = none ↔ bcast2 loc.shape scale.shape = none := by
+  constructor
+  · intro h
+    cases hb : bcast2 loc.shape scale.shape with
+    | none => rfl
+    | some s =>
+      have := FamGenPf.gen_normal_eq_model loc scale hb
+      rw [h] at this; cases this
+  · exact FamGenPf.gen_normal_none loc scale
+
+/-! #### textbook log-densities on the generated constructor + generated `_log_prob` -/
+
+/-- independent dimensions: on any shape, the generated object's log-prob is the sum of the one-element log-probs -/
+theorem gen_normal_log_prob_dims (loc scale : NArr ℝ) {s : List ℕ} (h : bcast2 loc.shape scale.shape = some s) (xs : List ℝ) :
+    ∃ d, GenFam.Normal.init loc scale = some d ∧
+      (locScaleDist d).logProb xs ()
+        = (List.zipWith (fun p x => (oneDim p).logProb x ())
+            (List.zipWith normalComp (broadcastTo loc s).data (broadcastTo scale s).data) xs).sum := by
+  obtain ⟨d, hd, he⟩ := Option.map_eq_some_iff.1 (FamGenPf.gen_normal_eq_model loc scale h)
+  exact ⟨d, hd, by rw [he, family_sum_dims]⟩
+
+theorem gen_normal_log_prob (μ σ x : ℝ) (h : 0 < σ) :
+    ∃ d, GenFam.Normal.init (NArr.scalar μ) (NArr.scalar σ) = some d ∧
+      (locScaleDist d).logProb [x] () = -(x - μ) ^ 2 / (2 * σ ^ 2) - Real.log (σ * Real.sqrt (2 * Real.pi)) := by
+  obtain ⟨d, hd, he⟩ := Option.map_eq_some_iff.1 (FamGenPf.gen_normal_eq_model (NArr.scalar μ) (NArr.scalar σ) (bcast2_self []))
+  refine ⟨d, hd, ?_⟩
+  rw [he, broadcastTo_scalar, broadcastTo_scalar, List.zipWith_cons_cons, List.zipWith_nil_left, scalar_logProb]
+  exact normal_log_prob μ σ x h
+
+theorem gen_lognormal_log_prob (μ σ x : ℝ) (h : 0 < σ) (hx : 0 < x) :
+    ∃ d, GenFam.LogNormal.init (NArr.scalar μ) (NArr.scalar σ) = some d ∧
+      (logNormalDist d).logProb [x] () = -(Real.log x - μ) ^ 2 / (2 * σ ^ 2) - Real.log (x * σ * Real.sqrt (2 * Real.pi)) := by
+  obtain ⟨d, hd, he⟩ := Option.map_eq_some_iff.1 (FamGenPf.gen_lognormal_eq_model (NArr.scalar μ) (NArr.scalar σ) (bcast2_self []))
+  refine ⟨d, hd, ?_⟩
+  rw [he, broadcastTo_scalar, broadcastTo_scalar, List.zipWith_cons_cons, List.zipWith_nil_left, scalar_logProb]
+  exact lognormal_log_prob μ σ x h hx
+
+/-- on the closed support, both edges included -/
+theorem gen_uniform_log_prob (a b x : ℝ) (h : a < b) (hx1 : a ≤ x) (hx2 : x ≤ b) :
+    ∃ d, GenFam.Uniform.init (NArr.scalar a) (NArr.scalar b) = some d ∧ (locScaleDist d).logProb [x] () = -Real.log (b - a) := by
+  obtain ⟨d, hd, he⟩ := Option.map_eq_some_iff.1 (FamGenPf.gen_uniform_eq_model (NArr.scalar a) (NArr.scalar b) (bcast2_self [])
+    (by intro p hp; rw [broadcastTo_scalar, broadcastTo_scalar] at hp; simp at hp; subst hp; simpa using h))
+  refine ⟨d, hd, ?_⟩
+  rw [he, broadcastTo_scalar, broadcastTo_scalar, List.zipWith_cons_cons, List.zipWith_nil_left, scalar_logProb]
+  exact uniform_log_prob a b x h hx1 hx2
+
+theorem gen_gumbel_log_prob (μ β x : ℝ) (h : 0 < β) :
+    ∃ d, GenFam.Gumbel.init (NArr.scalar μ) (NArr.scalar β) = some d ∧
+      (locScaleDist d).logProb [x] () = -((x - μ) / β + Real.exp (-((x - μ) / β))) - Real.log β := by
+  obtain ⟨d, hd, he⟩ := Option.map_eq_some_iff.1 (FamGenPf.gen_gumbel_eq_model (NArr.scalar μ) (NArr.scalar β) (bcast2_self []))
+  refine ⟨d, hd, ?_⟩
+  rw [he, broadcastTo_scalar, broadcastTo_scalar, List.zipWith_cons_cons, List.zipWith_nil_left, scalar_logProb]
+  exact gumbel_log_prob μ β x h
+
+theorem gen_cauchy_log_prob (x₀ γ x : ℝ) (h : 0 < γ) :
+    ∃ d, GenFam.Cauchy.init (NArr.scalar x₀) (NArr.scalar γ) = some d ∧
+      (locScaleDist d).logProb [x] () = -Real.log (Real.pi * γ * (1 + ((x - x₀) / γ) ^ 2)) := by
+  obtain ⟨d, hd, he⟩ := Option.map_eq_some_iff.1 (FamGenPf.gen_cauchy_eq_model (NArr.scalar x₀) (NArr.scalar γ) (bcast2_self []))
+  refine ⟨d, hd, ?_⟩
+  rw [he, broadcastTo_scalar, broadcastTo_scalar, List.zipWith_cons_cons, List.zipWith_nil_left, scalar_logProb]
+  exact cauchy_log_prob x₀ γ x h
+
+theorem gen_laplace_log_prob (μ b x : ℝ) (h : 0 < b) :
+    ∃ d, GenFam.Laplace.init (NArr.scalar μ) (NArr.scalar b) = some d ∧
+      (locScaleDist d).logProb [x] () = -|x - μ| / b - Real.log (2 * b) := by
+  obtain ⟨d, hd, he⟩ := Option.map_eq_some_iff.1 (FamGenPf.gen_laplace_eq_model (NArr.scalar μ) (NArr.scalar b) (bcast2_self []))
+  refine ⟨d, hd, ?_⟩
+  rw [he, broadcastTo_scalar, broadcastTo_scalar, List.zipWith_cons_cons, List.zipWith_nil_left, scalar_logProb]
+  exact laplace_log_prob μ b x h
+
+theorem gen_logistic_log_prob (μ s x : ℝ) (h : 0 < s) :
+    ∃ d, GenFam.Logistic.init (NArr.scalar μ) (NArr.scalar s) = some d ∧
+      (locScaleDist d).logProb [x] () = -((x - μ) / s) - 2 * Real.log (1 + Real.exp (-((x - μ) / s))) - Real.log s := by
+  obtain ⟨d, hd, he⟩ := Option.map_eq_some_iff.1 (FamGenPf.gen_logistic_eq_model (NArr.scalar μ) (NArr.scalar s) (bcast2_self []))
+  refine ⟨d, hd, ?_⟩
+  rw [he, broadcastTo_scalar, broadcastTo_scalar, List.zipWith_cons_cons, List.zipWith_nil_left, scalar_logProb]
+  exact logistic_log_prob μ s x h
+
+/-- the edge `x = 0` included -/
+theorem gen_exponential_log_prob (lam x : ℝ) (h : 0 < lam) (hx : 0 ≤ x) :
+    (exponentialDist (GenFam.Exponential.init (NArr.scalar lam))).logProb [x] () = Real.log lam - lam * x := by
+  rw [FamGenPf.gen_exponential_eq_model (NArr.scalar lam) rfl]
+  show (lifted [exponentialComp lam]).logProb [x] () = _
+  rw [scalar_logProb]
+  exact exponential_log_prob lam x h hx
+
+theorem gen_studentT_log_prob (ν μ σ x : ℝ) (hν : 0 < ν) (h : 0 < σ) :
+    ∃ d, GenFam.StudentT.init (NArr.scalar ν) (NArr.scalar μ) (NArr.scalar σ) = some d ∧
+      (studentTDist d).logProb [x] ()
+        = Real.log (Real.Gamma ((ν + 1) / 2)) - Real.log (Real.Gamma (ν / 2))
+          - Real.log (ν * Real.pi) / 2 - Real.log σ
+          - (ν + 1) / 2 * Real.log (1 + ((x - μ) / σ) ^ 2 / ν) := by
+  obtain ⟨d, hd, he⟩ := Option.map_eq_some_iff.1 (FamGenPf.gen_studentT_eq_model (NArr.scalar ν) (NArr.scalar μ) (NArr.scalar σ)
+    (s := []) rfl (by intro d hd; rw [broadcastTo_scalar] at hd; simp at hd; subst hd; exact hν))
+  refine ⟨d, hd, ?_⟩
+  rw [he, broadcastTo_scalar, broadcastTo_scalar, broadcastTo_scalar]
+  show (lifted [studentTComp ν μ σ]).logProb [x] () = _
+  rw [scalar_logProb]
+  exact studentT_log_prob ν μ σ x hν h
+
+/-- `MultivariateNormal` on the generated constructor: the log-density of `mvn_log_prob` -/
+theorem gen_mvn_log_prob (cholesky : List (List ℝ) → List (List ℝ)) (cov : List (List ℝ)) {n : ℕ}
+    (h : MvnPf.CholFactor n (cholesky cov)) {loc x : List ℝ} (hl : loc.length = n) (hx : x.length = n) :
+    ∃ d, GenFam.MultivariateNormal.init cholesky loc cov = some d ∧
+      (mvnDist d).logProb x ()
+        = -(n : ℝ) / 2 * Real.log (2 * Real.pi) - ∑ i : Fin n, Real.log (TriPf.toMat n (cholesky cov) i i)
+          - 1 / 2 * ((Tri.solveLower (cholesky cov) (List.zipWith (fun a b => a - b) x loc)).map (fun t => t ^ 2)).sum := by
+  obtain ⟨d', hd', he'⟩ := mvn_log_prob h hl hx
+  have hg := FamGenPf.gen_mvn_eq_model cholesky loc cov h hl
+  rw [hd'] at hg
+  obtain ⟨d, hd, he⟩ := Option.map_eq_some_iff.1 hg
+  exact ⟨d, hd, by rw [he]; exact he'⟩
+
+/-! #### accessor round trips on the generated accessors + generated constructors (any shapes) -/
+
+/-- `Normal(loc, scale).loc / .scale`: the broadcast arguments; the stored raw leaf is `softplus⁻¹ scale` -/
+theorem gen_normal_accessor (loc scale : NArr ℝ) {s : List ℕ} (h : bcast2 loc.shape scale.shape = some s)
+    (hpos : ∀ σ ∈ (broadcastTo scale s).data, 0 < σ) :
+    ∃ d, GenFam.Normal.init loc scale = some d ∧ d.base_dist = ⟨.normal, s⟩ ∧ d.bijection.shape = s ∧
+      GenFam.locScaleLoc d = broadcastTo loc s ∧ GenFam.locScaleScale d = broadcastTo scale s ∧
+      Reparam.raw d.bijection.scale = (broadcastTo scale s).data.map Ctors.softplusRaw :=
+  locscale_accessor .normal loc scale h hpos
+
+theorem gen_gumbel_accessor (loc scale : NArr ℝ) {s : List ℕ} (h : bcast2 loc.shape scale.shape = some s)
+    (hpos : ∀ σ ∈ (broadcastTo scale s).data, 0 < σ) :
+    ∃ d, GenFam.Gumbel.init loc scale = some d ∧ d.base_dist = ⟨.gumbel, s⟩ ∧ d.bijection.shape = s ∧
+      GenFam.locScaleLoc d = broadcastTo loc s ∧ GenFam.locScaleScale d = broadcastTo scale s ∧
+      Reparam.raw d.bijection.scale = (broadcastTo scale s).data.map Ctors.softplusRaw :=
+  locscale_accessor .gumbel loc scale h hpos
+
+theorem gen_cauchy_accessor (loc scale : NArr ℝ) {s : List ℕ} (h : bcast2 loc.shape scale.shape = some s)
+    (hpos : ∀ σ ∈ (broadcastTo scale s).data, 0 < σ) :
+    ∃ d, GenFam.Cauchy.init loc scale = some d ∧ d.base_dist = ⟨.cauchy, s⟩ ∧ d.bijection.shape = s ∧
+      GenFam.locScaleLoc d = broadcastTo loc s ∧ GenFam.locScaleScale d = broadcastTo scale s ∧
+      Reparam.raw d.bijection.scale = (broadcastTo scale s).data.map Ctors.softplusRaw :=
+  locscale_accessor .cauchy loc scale h hpos
+
+theorem gen_laplace_accessor (loc scale : NArr ℝ) {s : List ℕ} (h : bcast2 loc.shape scale.shape = some s)
+    (hpos : ∀ σ ∈ (broadcastTo scale s).data, 0 < σ) :
+    ∃ d, GenFam.Laplace.init loc scale = some d ∧ d.base_dist = ⟨.laplace, s⟩ ∧ d.bijection.shape = s ∧
+      GenFam.locScaleLoc d = broadcastTo loc s ∧ GenFam.locScaleScale d = broadcastTo scale s ∧
+      Reparam.raw d.bijection.scale = (broadcastTo scale s).data.map Ctors.softplusRaw :=
+  locscale_accessor .laplace loc scale h hpos
+
+theorem gen_logistic_accessor (loc scale : NArr ℝ) {s : List ℕ} (h : bcast2 loc.shape scale.shape = some s)
+    (hpos : ∀ σ ∈ (broadcastTo scale s).data, 0 < σ) :
+    ∃ d, GenFam.Logistic.init loc scale = some d ∧ d.base_dist = ⟨.logistic, s⟩ ∧ d.bijection.shape = s ∧
+      GenFam.locScaleLoc d = broadcastTo loc s ∧ GenFam.locScaleScale d = broadcastTo scale s ∧
+      Reparam.raw d.bijection.scale = (broadcastTo scale s).data.map Ctors.softplusRaw :=
+  locscale_accessor .logistic loc scale h hpos
+
+/-- `Uniform(minval, maxval).minval / .maxval` (`bijection.loc + unwrap(bijection.scale)`) -/
+theorem gen_uniform_accessor (minval maxval : NArr ℝ) {s : List ℕ} (h : bcast2 minval.shape maxval.shape = some s)
+    (hv : ∀ p ∈ List.zip (broadcastTo maxval s).data (broadcastTo minval s).data, ¬ p.1 ≤ p.2) :
+    ∃ d, GenFam.Uniform.init minval maxval = some d ∧ d.base_dist = ⟨.uniform, s⟩ ∧
+      GenFam.uniformMinval d = broadcastTo minval s ∧ GenFam.uniformMaxval d = some (broadcastTo maxval s) :=
+  uniform_accessor minval maxval h hv
+
+/-- `StudentT(df, loc, scale).df` (`unwrap(base_dist.df)`) -/
+theorem gen_studentT_accessor (df loc scale : NArr ℝ) {s : List ℕ}
+    (h : Vec.broadcastShapes [df.shape, loc.shape, scale.shape] = some s) (hpos : ∀ d ∈ (broadcastTo df s).data, 0 < d) :
+    ∃ d, GenFam.StudentT.init df loc scale = some d ∧ d.base_dist.shape = s ∧ GenFam.studentTDf d = broadcastTo df s ∧
+      GenFam.locScaleLoc d = broadcastTo loc s ∧ Reparam.raw d.base_dist.df = (broadcastTo df s).data.map Ctors.softplusRaw :=
+  studentT_accessor df loc scale h hpos
+
+/-- `Exponential(rate).rate` (`1 / unwrap(bijection.scale)`) -/
+theorem gen_exponential_accessor (rate : NArr ℝ) (hpos : ∀ r ∈ rate.data, 0 < r) :
+    GenFam.exponentialRate (GenFam.Exponential.init rate) = rate ∧
+      (GenFam.Exponential.init rate).base_dist = ⟨.exponential, rate.shape⟩ ∧
+      Reparam.raw (GenFam.Exponential.init rate).bijection.scale = rate.data.map (fun r => Ctors.softplusRaw (1 / r)) :=
+  exponential_accessor rate hpos
+
+/-- `MultivariateNormal(loc, covariance).loc / .covariance`: the generated accessors are the hand model's (`mvn_accessor_*`) -/
+theorem gen_mvn_accessor (cholesky : List (List ℝ) → List (List ℝ)) (loc : List ℝ) (cov : List (List ℝ)) {n : ℕ}
+    (h : MvnPf.CholFactor n (cholesky cov)) (hl : loc.length = n) :
+    ∃ d, GenFam.MultivariateNormal.init cholesky loc cov = some d ∧ GenFam.mvnLoc d = loc ∧
+      some (GenFam.mvnCovariance d) = Families.mvnCovariance loc (cholesky cov) ∧ d.base_dist = ⟨.normal, [n]⟩ := by
+  refine ⟨{ base_dist := ⟨.normal, [n]⟩, bijection := { triangular := cholesky cov, loc := loc, lower := true } }, ?_, rfl, ?_, rfl⟩
+  · simp only [GenFam.MultivariateNormal.init, triangularAffine, MvnPf.mvnBijection_chol h hl, Option.bind_some, triShape, h.sq.1]
+  · simp only [GenFam.mvnCovariance, triUnwrapTriangular, Families.mvnCovariance, MvnPf.mvnBijection_chol h hl, Option.map_some,
+      matmul_transpose_eq h.sq]
+
+/-! #### `VmapMixture`: generated `__init__`, `_log_prob`, `_sample` -/
+
+/-- the generated constructor on positive (unnormalised) weights, any number of components: declared shapes, stored raw leaf
+`log weights`, and the unwrapped `log_normalized_weights = log (wᵢ / Σ w)`; it raises iff some weight is `≤ 0` -/
+theorem gen_mixture_ctor {X K : Type} (dist : VDist X K ℝ) (w : NArr ℝ) :
+    ((∀ x ∈ w.data, 0 < x) →
+      ∃ m, GenFam.VmapMixture.init dist w = some m ∧ m.shape = dist.shape ∧ m.cond_shape = dist.cond_shape ∧ m.dist = dist ∧
+        m.log_normalized_weights.args = w.data.map Real.log ∧
+        m.unwrap.log_normalized_weights = w.data.map (fun x => Real.log x - Real.log w.data.sum)) ∧
+    (GenFam.VmapMixture.init dist w = none ↔ ∃ x ∈ w.data, x ≤ 0) := by
+  refine ⟨fun hpos => ?_, mixture_init_none_iff dist w⟩
+  obtain ⟨m, h1, h2, h3, h4, h5, h6⟩ := mixture_init_eq dist w hpos
+  exact ⟨m, h1, h2, h3, h4, h5, by rw [h6, mixture_log_normalized_weights _ hpos]⟩
+
+/-- **mixture density on the generated constructor + generated `_log_prob`**: the log of the weight-normalised sum of the component
+densities, for every number of components and all positive weights -/
+theorem gen_mixture_log_prob {X K : Type} (dist : VDist X K ℝ) (w : NArr ℝ) (hpos : ∀ x ∈ w.data, 0 < x) (x : X) :
+    ∃ m, GenFam.VmapMixture.init dist w = some m ∧
+      GenFam.mixtureLogProb m.unwrap x none
+        = Real.log ((List.zipWith (fun wi lp => wi / w.data.sum * Real.exp lp) w.data (dist.comps.map (fun d => d.logProb x ()))).sum) := by
+  obtain ⟨m, h1, _, _, h4, _, h6⟩ := mixture_init_eq dist w hpos
+  refine ⟨m, h1, ?_⟩
+  rw [mixture_logProb_eq m.unwrap w.data h6, mixture_density _ hpos]
+  show Real.log ((List.zipWith _ w.data (m.dist.comps.map _)).sum) = _
+  rw [h4]
+
+/-- the generated `_log_prob` / `_sample` are the hand model `Families.vmapMixture`'s (so `mixture_sample_law`,
+`mixture_sample_is_component_sample`, `mixture_weight_scale_invariant` are about them) -/
+theorem gen_mixture_eq_model {X K : Type} [Inhabited X] (m : MixtureU X K ℝ) (ws : List ℝ)
+    (h : m.log_normalized_weights = logNormWeights ws) (x : X) (key : ℕ × K) :
+    GenFam.mixtureLogProb m x none = (vmapMixture m.dist.comps ws).logProb x () ∧
+    GenFam.mixtureSample m key none = mixtureSample m.dist.comps key () ∧
+    (m.dist.comps ≠ [] → GenFam.mixtureSample m key none = some ((vmapMixture m.dist.comps ws).sample key ())) := by
+  refine ⟨mixture_logProb_eq m ws h x none, mixture_sample_eq m key none, fun hne => ?_⟩
+  rw [mixture_sample_eq]
+  obtain ⟨d, _, hd⟩ := mixture_take_defined m.dist.comps hne key.1
+  simp [mixtureSample, vmapMixture, DistCore.toDist, hd]
+
+/-! #### non-vacuity: concrete instances (a broadcasting pair of shapes `(3,)` × `(2, 1)`; scalars) -/
+
+theorem gen_broadcast_instance :
+    bcast2 [3] [2, 1] = some [2, 3] ∧
+      (broadcastTo (⟨[3], [10, 20, 30]⟩ : NArr ℝ) [2, 3]).data = [10, 20, 30, 10, 20, 30] ∧
+      (broadcastTo (⟨[2, 1], [1, 2]⟩ : NArr ℝ) [2, 3]).data = [1, 1, 1, 2, 2, 2] := by
+  refine ⟨by decide, ?_, ?_⟩ <;> rfl
+
+theorem gen_normal_instance :
+    ∃ d, GenFam.Normal.init (NArr.scalar 1) (NArr.scalar (2 : ℝ)) = some d ∧
+      (locScaleDist d).logProb [1] () = -Real.log (2 * Real.sqrt (2 * Real.pi)) := by
+  obtain ⟨d, hd, he⟩ := gen_normal_log_prob 1 2 1 (by norm_num)
+  exact ⟨d, hd, by rw [he]; norm_num⟩
+
+theorem gen_uniform_edge_instance :
+    ∃ d, GenFam.Uniform.init (NArr.scalar (-1)) (NArr.scalar (3 : ℝ)) = some d ∧ (locScaleDist d).logProb [3] () = -Real.log 4 := by
+  obtain ⟨d, hd, he⟩ := gen_uniform_log_prob (-1) 3 3 (by norm_num) (by norm_num) le_rfl
+  exact ⟨d, hd, by rw [he]; norm_num⟩
+
+theorem gen_exponential_edge_instance :
+    (exponentialDist (GenFam.Exponential.init (NArr.scalar (2 : ℝ)))).logProb [0] () = Real.log 2 := by
+  rw [gen_exponential_log_prob 2 0 (by norm_num) le_rfl]; norm_num
+
+end FamiliesGen
 
 end C05
